@@ -54,7 +54,11 @@ def one_kind(kind: str, reps: int, flush_every: int) -> Dict[str, Any]:
             hist.append({"s": "foreach", "a": "A1", "enum": bool(r % 2), "body": [{"s": "add", "t": fut("A2", lv(1)), "o": fut("A1", lv(1)), "mod": 7}]})
         elif kind == "foreach-same-context-object":
             # one foreach / enumerate context object kept by the application and entered again: on its own, and inside an open loop
-            fe = {"s": "foreach", "a": "A1", "enum": bool(r % 2), "reuse": True, "body": [{"s": "add", "t": fut("A2", lv(1)), "o": fut("A1", lv(1)), "mod": 7}]}
+            fe_body = [{"s": "add", "t": fut("A2", lv(1)), "o": fut("A1", lv(1)), "mod": 7}]
+            if r % 3 == 1:
+                # ... with a conditional (a context made after the last flush) opened inside the kept one
+                fe_body = [{"s": "if", "cmp": "ge", "a": fut("A1", c(r % 3)), "b": c(0), "form": "ctx", "body": fe_body}, {"s": "add", "t": fut("A2", c(0)), "o": c(1), "mod": 5}]
+            fe = {"s": "foreach", "a": "A1", "enum": bool(r % 2), "reuse": True, "body": fe_body}
             if r % 4 < 2:
                 hist.append(fe)
             else:
